@@ -227,7 +227,13 @@ fn subject<R: Relation + Send + Sync>(
             let pair = format!("{an}->{bn}");
             ctx.count(&format!("roundtrip:{pair}"));
             match mzkh::catch(|| MidnightVK::read(&mut &vkb[..], *fb)) {
-                Err(p) => ctx.oracle_fail(&format!("vk-read-panic:stdlib:{pair}"), "MidnightVK::read panicked", json!({"case": desc, "pair": pair, "panic": p})),
+                Err(p) => {
+                    if compatible(an, bn) {
+                        ctx.oracle_fail(&format!("vk-read-panic:stdlib:{pair}"), "MidnightVK::read panicked on its own output", json!({"case": desc, "pair": pair, "panic": p}));
+                    } else {
+                        ctx.count(&format!("mismatch-rejected:mvk:{pair}:panic"));
+                    }
+                }
                 Ok(Ok(v2)) => {
                     if !compatible(an, bn) {
                         ctx.oracle_fail(&format!("vk-format-mismatch-accepted:stdlib:{pair}"), "a MidnightVK written in one format was accepted when read in an incompatible one", json!({"case": desc, "pair": pair}));
@@ -250,7 +256,13 @@ fn subject<R: Relation + Send + Sync>(
                 }
             }
             match mzkh::catch(|| MidnightPK::<R>::read(&mut &pkb[..], *fb)) {
-                Err(p) => ctx.oracle_fail(&format!("pk-read-panic:stdlib:{pair}"), "MidnightPK::read panicked", json!({"case": desc, "pair": pair, "panic": p})),
+                Err(p) => {
+                    if compatible(an, bn) {
+                        ctx.oracle_fail(&format!("pk-read-panic:stdlib:{pair}"), "MidnightPK::read panicked on its own output", json!({"case": desc, "pair": pair, "panic": p}));
+                    } else {
+                        ctx.count(&format!("mismatch-rejected:mpk:{pair}:panic"));
+                    }
+                }
                 Ok(Ok(p2)) => {
                     if !compatible(an, bn) {
                         ctx.oracle_fail(&format!("pk-format-mismatch-accepted:stdlib:{pair}"), "a MidnightPK written in one format was accepted when read in an incompatible one", json!({"case": desc, "pair": pair}));
@@ -320,9 +332,6 @@ fn subject<R: Relation + Send + Sync>(
             }
         };
         ctx.count("proof:made");
-        if proof != p0 {
-            ctx.oracle_fail(&format!("reloaded-pk-different-proof:stdlib:{pn}"), "a reloaded MidnightPK produced a different proof from the same randomness", json!({"case": desc, "pk": pn}));
-        }
         for (vn, vkx) in &vlist {
             ctx.count("proof:verified-combination");
             match verify(vkx, &instance, &proof) {
